@@ -48,8 +48,21 @@ fn scalar(n: &ArrayNode) -> String {
         ArrayNode::Empty => "e".to_string(),
     }
 }
-/// None: the node is outside the core language
-pub fn ast(node: &Node, row: i32, col: i32, out: &mut String) -> Option<()> {
+/// per sheet: (max row, max column) over the cells of sheet_data — the used area of the sheet
+pub fn sheet_dims(m: &Model) -> Vec<(i32, i32)> {
+    m.workbook.worksheets.iter().map(|ws| {
+        let mr = ws.sheet_data.keys().copied().max().unwrap_or(1);
+        let mc = ws.sheet_data.values().flat_map(|r| r.keys().copied()).max().unwrap_or(1);
+        (mr, mc)
+    }).collect()
+}
+/// None: the node is outside the core language.
+/// A full-column / full-row range (A:A, 1:1, A:B, 2:3) has its grid-wide meaning; it is accepted only as
+/// a direct argument of an aggregate and handed to the model clipped to the used area of the REFERENCED
+/// sheet plus a margin of 8 rows/columns (every cell beyond is empty, and aggregates skip empty cells).
+pub fn ast(node: &Node, row: i32, col: i32, out: &mut String) -> Option<()> { ast_in(node, row, col, out, &[], false) }
+const SPILL_MARGIN: i32 = 8;
+pub fn ast_in(node: &Node, row: i32, col: i32, out: &mut String, dims: &[(i32, i32)], in_agg: bool) -> Option<()> {
     use std::fmt::Write;
     match node {
         Node::NumberKind(f) => { let _ = write!(out, " N {}", bits(*f)); }
@@ -67,9 +80,15 @@ pub fn ast(node: &Node, row: i32, col: i32, out: &mut String) -> Option<()> {
             let r2 = if *absolute_row2 { *row2 } else { *row2 + row };
             let c1 = if *absolute_column1 { *column1 } else { *column1 + col };
             let c2 = if *absolute_column2 { *column2 } else { *column2 + col };
-            // full rows/columns trigger SUM's dimension shortcut, which is not modelled
-            if (r1.min(r2) == 1 && r1.max(r2) == 1048576) || (c1.min(c2) == 1 && c1.max(c2) == 16384) { return None; }
-            let _ = write!(out, " G {} {} {} {} {}", sheet_index, r1.min(r2), c1.min(c2), r1.max(r2), c1.max(c2));
+            let (mut ra, mut rb, mut ca, mut cb) = (r1.min(r2), r1.max(r2), c1.min(c2), c1.max(c2));
+            let (full_rows, full_cols) = (ra == 1 && rb == 1048576, ca == 1 && cb == 16384);
+            if full_rows || full_cols {
+                let d = dims.get(*sheet_index as usize)?;
+                if !in_agg { return None; }
+                if full_rows { rb = (d.0 + SPILL_MARGIN).min(1048576); ra = 1; }
+                if full_cols { cb = (d.1 + SPILL_MARGIN).min(16384); ca = 1; }
+            }
+            let _ = write!(out, " G {} {} {} {} {}", sheet_index, ra, ca, rb, cb);
         }
         Node::ArrayKind(a) => {
             let rows = a.len(); let cols = a.first().map_or(0, |r| r.len());
@@ -79,33 +98,34 @@ pub fn ast(node: &Node, row: i32, col: i32, out: &mut String) -> Option<()> {
         }
         Node::UnaryKind { kind, right } => {
             out.push_str(match kind { OpUnary::Minus => " U m", OpUnary::Percentage => " U p" });
-            ast(right, row, col, out)?;
+            ast_in(right, row, col, out, dims, false)?;
         }
         Node::OpSumKind { kind, left, right } => {
             out.push_str(match kind { OpSum::Add => " O a", OpSum::Minus => " O s" });
-            ast(left, row, col, out)?; ast(right, row, col, out)?;
+            ast_in(left, row, col, out, dims, false)?; ast_in(right, row, col, out, dims, false)?;
         }
         Node::OpProductKind { kind, left, right } => {
             out.push_str(match kind { OpProduct::Times => " O m", OpProduct::Divide => " O d" });
-            ast(left, row, col, out)?; ast(right, row, col, out)?;
+            ast_in(left, row, col, out, dims, false)?; ast_in(right, row, col, out, dims, false)?;
         }
-        Node::OpPowerKind { left, right } => { out.push_str(" O p"); ast(left, row, col, out)?; ast(right, row, col, out)?; }
-        Node::OpConcatenateKind { left, right } => { out.push_str(" C"); ast(left, row, col, out)?; ast(right, row, col, out)?; }
+        Node::OpPowerKind { left, right } => { out.push_str(" O p"); ast_in(left, row, col, out, dims, false)?; ast_in(right, row, col, out, dims, false)?; }
+        Node::OpConcatenateKind { left, right } => { out.push_str(" C"); ast_in(left, row, col, out, dims, false)?; ast_in(right, row, col, out, dims, false)?; }
         Node::CompareKind { kind, left, right } => {
             out.push_str(match kind {
                 OpCompare::Equal => " P eq", OpCompare::LessThan => " P lt", OpCompare::GreaterThan => " P gt",
                 OpCompare::LessOrEqualThan => " P le", OpCompare::GreaterOrEqualThan => " P ge", OpCompare::NonEqual => " P ne",
             });
-            ast(left, row, col, out)?; ast(right, row, col, out)?;
+            ast_in(left, row, col, out, dims, false)?; ast_in(right, row, col, out, dims, false)?;
         }
         Node::ImplicitIntersection { child, .. } => {
             if matches!(**child, Node::ImplicitIntersection { .. }) { return None; }
-            out.push_str(" I"); ast(child, row, col, out)?;
+            out.push_str(" I"); ast_in(child, row, col, out, dims, false)?;
         }
         Node::FunctionKind { kind, args } => {
             let name = core_fn(kind)?;
             let _ = write!(out, " F {} {}", name, args.len());
-            for a in args { ast(a, row, col, out)?; }
+            let agg = matches!(name, "SUM" | "MIN" | "MAX" | "COUNT" | "COUNTA" | "AVERAGE" | "AND" | "OR" | "CONCAT");
+            for a in args { ast_in(a, row, col, out, dims, agg)?; }
         }
         _ => return None,
     }
@@ -156,6 +176,7 @@ pub fn cell_obs(m: &Model, s: u32, r: i32, c: i32) -> String {
 pub fn workbook(m: &Model, with_values: bool) -> Option<String> {
     use std::fmt::Write;
     let cells = all_cells(m);
+    let dims = sheet_dims(m);
     let mut out = format!("{}", cells.len());
     for (s, r, c) in cells {
         let cell = &m.workbook.worksheets[s as usize].sheet_data[&r][&c];
@@ -169,12 +190,12 @@ pub fn workbook(m: &Model, with_values: bool) -> Option<String> {
             Cell::CellFormula { f, v, .. } => {
                 let (node, _) = m.parsed_formulas.get(s as usize)?.get(*f as usize)?;
                 let _ = write!(out, "f {}", if with_values { fv(v) } else { "u".to_string() });
-                ast(node, r, c, &mut out)?;
+                ast_in(node, r, c, &mut out, &dims, false)?;
             }
             Cell::ArrayFormula { f, v, r: (w, h), kind, .. } => {
                 let (node, _) = m.parsed_formulas.get(s as usize)?.get(*f as usize)?;
                 let _ = write!(out, "af {} {} {} {}", matches!(kind, ArrayKind::Dynamic) as u8, w, h, if with_values { fv(v) } else { "u".to_string() });
-                ast(node, r, c, &mut out)?;
+                ast_in(node, r, c, &mut out, &dims, false)?;
             }
             Cell::SpillCell { a, v, .. } => { let _ = write!(out, "sp {} {} {}", a.0, a.1, sv(v)); }
         }
